@@ -525,10 +525,98 @@ def oracle_dtypes(ctx, names, boost):
         run_event_case(ctx, batch, case, per_row, names, spec_of)
 
 
+# ------------------------------------------------------------------------------------------------ state across a sequence of calls
+def oracle_sequences(ctx, n, prop="C09"):
+    """STATE class: several operations on ONE BinaryContingencyManager, and several managers in one process.  A manager holds its
+    counts; `transform` must neither change them nor remember an earlier request, and one manager must not see another's values.
+    Every result is compared with the same request on a FRESH manager built from the same event arrays (and, for the counts, with a
+    direct count of the event pairs), so nothing here depends on the library's own earlier output."""
+    from scores.categorical import BinaryContingencyManager
+    rng = ctx.rng
+    for _ in range(n):
+        na, nb = rng.choice([2, 3]), rng.choice([2, 3, 4])
+        f = np.array([[rng.choice([0.0, 1.0, 1.0, np.nan if rng.random() < 0.3 else 0.0]) for _ in range(nb)] for _ in range(na)])
+        o = np.array([[rng.choice([0.0, 1.0, 0.0, np.nan if rng.random() < 0.3 else 1.0]) for _ in range(nb)] for _ in range(na)])
+        if rng.random() < 0.25:
+            f[rng.randrange(na), :] = np.nan          # a kept cell with no valid pair at all
+        mk = lambda: BinaryContingencyManager(xr.DataArray(f.copy(), dims=["aa", "bb"]), xr.DataArray(o.copy(), dims=["aa", "bb"]))
+        desc = {"fcst_events": core.canon(f.tolist()), "obs_events": core.canon(o.tolist())}
+        reqs = [{"preserve_dims": ["aa"]}, {"reduce_dims": ["aa"]}, {"reduce_dims": ["bb"]}, {"preserve_dims": ["bb"]}, {}, {"preserve_dims": "all"},
+                {"reduce_dims": "all"}]
+        seq = [rng.choice(reqs) for _ in range(rng.randint(2, 4))]
+        seq.append(dict(seq[0]) if "preserve_dims" not in seq[0] else {"reduce_dims": seq[0]["preserve_dims"]})   # the same dims under the OTHER option
+        ctx.case("manager-sequences", dict(desc, sequence=[str(r) for r in seq]))
+        ctx.tag("sequence-length:%d" % len(seq))
+
+        def snap(m):
+            with np.errstate(all="ignore"):
+                c = m.get_counts()
+                vals = {k: (tuple(str(d) for d in v.dims), np.asarray(v.values, dtype=float).ravel().tolist()) for k, v in c.items()}
+                vals["pod"] = (tuple(str(d) for d in m.probability_of_detection().dims), np.asarray(m.probability_of_detection().values, dtype=float).ravel().tolist())
+                vals["sedi"] = (tuple(), np.asarray(m.symmetric_extremal_dependence_index().values, dtype=float).ravel().tolist())
+            return vals
+
+        def same(a, b):
+            return a.keys() == b.keys() and all(a[k][0] == b[k][0] and len(a[k][1]) == len(b[k][1]) and
+                                                 all(core.close_ff(x, y) for x, y in zip(a[k][1], b[k][1])) for k in a)
+        try:
+            m = mk()
+            base = snap(m)
+            # the manager's own counts are the direct counts of the valid pairs
+            valid = ~(np.isnan(f) | np.isnan(o))
+            direct = {"tp_count": float(((f == 1) & (o == 1) & valid).sum()), "fp_count": float(((f == 1) & (o == 0) & valid).sum()),
+                      "fn_count": float(((f == 0) & (o == 1) & valid).sum()), "tn_count": float(((f == 0) & (o == 0) & valid).sum())}
+            direct["total_count"] = sum(direct.values())
+            for k, v in direct.items():
+                if not (len(base[k][1]) == 1 and core.close_ff(base[k][1][0], v)):
+                    ctx.fail("manager-sequences", "property", "BinaryContingencyManager", "counts-differ-from-direct-count", desc,
+                             observed={k: base[k][1]}, expected={k: v}, tags={"step": "init"})
+            for i, req in enumerate(seq):
+                got = snap(m.transform(**req))
+                ref = snap(mk().transform(**req))
+                # direct counts of the valid pairs in every kept cell (0 for a cell without any valid pair)
+                if "preserve_dims" in req:
+                    keep = ["aa", "bb"] if req["preserve_dims"] == "all" else list(req["preserve_dims"])
+                elif req.get("reduce_dims") in (None, "all"):
+                    keep = []
+                else:
+                    keep = [d for d in ("aa", "bb") if d not in req["reduce_dims"]]
+                axes = tuple(ax for ax, d in enumerate(("aa", "bb")) if d not in keep)
+                maps = {"tp_count": (f == 1) & (o == 1) & valid, "fp_count": (f == 1) & (o == 0) & valid,
+                        "fn_count": (f == 0) & (o == 1) & valid, "tn_count": (f == 0) & (o == 0) & valid, "total_count": valid}
+                for kname, mp in maps.items():
+                    # nothing reduced: the "count" of a pair is its 0/1 map value, NaN for an invalid pair (no sum is taken)
+                    dv = np.asarray(mp.sum(axis=axes) if axes else np.where(valid, mp.astype(float), np.nan), dtype=float)
+                    gd, gv = got[kname]
+                    gv = np.asarray(gv, dtype=float).reshape([{"aa": na, "bb": nb}[d] for d in gd]) if gd else np.asarray(gv, dtype=float).reshape(())
+                    if gd and list(gd) != keep:
+                        gv = gv.T
+                    if gv.shape != dv.shape or not all(core.close_ff(x, y) for x, y in zip(gv.ravel().tolist(), dv.ravel().tolist())):
+                        ctx.fail("manager-sequences", "property", "BinaryContingencyManager.transform", "counts-differ-from-direct-count",
+                                 dict(desc, request=str(req)), observed={kname: gv.ravel().tolist()}, expected={kname: dv.ravel().tolist()},
+                                 tags={"step": i, "request": str(req), "count": kname})
+                        break
+                if not same(got, ref):
+                    ctx.fail("manager-sequences", "property", "BinaryContingencyManager.transform", "result-depends-on-earlier-calls",
+                             dict(desc, sequence=[str(r) for r in seq], step=i), observed=core.canon(got), expected=core.canon(ref),
+                             tags={"step": i, "request": str(req)})
+                    break
+                after = snap(m)
+                if not same(after, base):
+                    ctx.fail("manager-sequences", "property", "BinaryContingencyManager.transform", "transform-changes-the-manager",
+                             dict(desc, sequence=[str(r) for r in seq], step=i), observed=core.canon(after), expected=core.canon(base),
+                             tags={"step": i, "request": str(req)})
+                    break
+        except Exception as ex:  # noqa: BLE001
+            ctx.fail("manager-sequences", "property", "BinaryContingencyManager", "exception:" + core.exc_class(ex), desc,
+                     observed=str(ex)[:200], expected="counts", tags={})
+
+
 def oracle(ctx, boost):
     """the property itself on the implementation: documented formula (Lean Spec), aliases,
     swap symmetry, no exceptions, standalone POD/POFD = manager"""
     names = metric_names()
+    oracle_sequences(ctx, ctx.n(40, 600) * (3 if boost else 1))
     tabs = tables_upto(ctx.n(10, 16) + (6 if boost else 0))
     rng = ctx.rng
     for _ in range(ctx.n(200, 3000) * (5 if boost else 1)):
